@@ -182,8 +182,11 @@ func (f *Fake) listed(c Container, opts apicontainer.ListOptions) (bool, error) 
 }
 
 // ContainerList implements client.APIClient.
-func (f *Fake) ContainerList(_ context.Context, opts apicontainer.ListOptions) ([]types.Container, error) {
+func (f *Fake) ContainerList(ctx context.Context, opts apicontainer.ListOptions) ([]types.Container, error) {
 	f.yield("list")
+	if err := ctx.Err(); err != nil {
+		return nil, err // the real client fails a request whose context is done
+	}
 	f.mu.Lock()
 	f.ListCalls++
 	f.ListOpts = append(f.ListOpts, opts)
@@ -220,7 +223,7 @@ func (f *Fake) ContainerList(_ context.Context, opts apicontainer.ListOptions) (
 }
 
 // ContainerLogs implements client.APIClient.
-func (f *Fake) ContainerLogs(_ context.Context, id string, opts apicontainer.LogsOptions) (io.ReadCloser, error) {
+func (f *Fake) ContainerLogs(ctx context.Context, id string, opts apicontainer.LogsOptions) (io.ReadCloser, error) {
 	idx := -1
 	for i, c := range f.Containers {
 		if c.ID == id {
@@ -245,12 +248,13 @@ func (f *Fake) ContainerLogs(_ context.Context, id string, opts apicontainer.Log
 	f.mu.Lock()
 	f.Opened[idx]++
 	f.mu.Unlock()
-	rd := &reader{f: f, idx: idx, data: c.Log}
+	rd := &reader{f: f, idx: idx, data: c.Log, ctx: ctx}
 	f.yield("logs-return:" + id)
 	return rd, nil
 }
 
 type reader struct {
+	ctx    context.Context // the response body of the real client dies with the request context
 	f      *Fake
 	idx    int
 	data   []byte
@@ -261,6 +265,11 @@ type reader struct {
 func (r *reader) Read(p []byte) (int, error) {
 	if len(p) == 0 {
 		return 0, nil
+	}
+	if r.ctx != nil {
+		if err := r.ctx.Err(); err != nil {
+			return 0, err
+		}
 	}
 	rem := len(r.data) - r.pos
 	max := len(p)
